@@ -29,7 +29,7 @@ RULE = ('every public method of the live pyipmi.Ipmi class is called (arguments 
         'quick = the 12 codes any handler tests for + 0x83 + 0xCE + the band edges 01/7E/7F/BE/BF/D6/D7/FE of table 5-2, thorough = 0x01..0xFF), with that request '
         'answered by the bare code (sampled: code + payload); double faults: at every later position of every '
         'run that recovered, plus seeded pairs.  Oracle = the property: CompletionCodeError with that code, '
-        'RetryError, HpmError, or the fault-free result AND evidence of a retry/adaptation in the request trace. '
+        'RetryError, HpmError, or the fault-free result AND evidence of a retry/adaptation in the request trace AND every code the run went on after is one the documented handlers of that operation name. '
         'A case is distinct by (operation, recipe, device variant, fault list) and non-trivial when the fault '
         'position is reached.')
 ASSUMPTIONS = [
@@ -63,6 +63,29 @@ QUICK_CODES = [0x80, 0x81, 0xC0, 0xC3, 0xC5, 0xC8, 0xC9, 0xCA, 0xCB, 0xCC, 0xD5,
 LIB_ERRORS = ('CompletionCodeError', 'RetryError', 'HpmError')
 # operations that hand the response (or the raw bytes) to the caller, completion code included
 PRIMITIVES = ('send_message', 'raw_command')
+# the documented retries / adaptations (property record: read-size back-off, reservation renewal, busy/timeout
+# retry, HPM long-duration polling), per operation, with the codes pinned by Props/C08.lean handler_codes_pinned:
+# an operation may go on after exactly these codes; going on after any other code is swallowing it
+_HPM, _CLR, _FRU = {0x80}, {0xC5}, {0xC8, 0xC9, 0xCA}
+_SDR, _SEL = {0xC3, 0xC5, 0xCE, 0xCA}, {0xCA}
+DOCUMENTED = {}
+for _o in ('activate_firmware_and_wait', 'activation_stage', 'finish_upload_and_wait', 'initiate_manual_rollback_and_wait',
+           'initiate_upgrade_action_and_wait', 'upload_binary', 'upgrade_stage', 'install_component_from_image',
+           'install_component_from_file'):
+    DOCUMENTED[_o] = _HPM
+for _o in ('clear_sdr_repository', 'clear_sel'):
+    DOCUMENTED[_o] = _CLR
+for _o in ('read_fru_data', 'read_fru_data_full', 'get_fru_inventory_header', 'get_fru_board_area', 'get_fru_chassis_area',
+           'get_fru_product_area', 'get_fru_multirecord_area', 'get_fru_inventory'):
+    DOCUMENTED[_o] = _FRU
+for _o in ('get_device_sdr', 'device_sdr_entries', 'get_device_sdr_list', 'get_repository_sdr', 'sdr_repository_entries',
+           'get_repository_sdr_list', '_get_sdr_chunk', '_get_device_sdr_chunk'):
+    DOCUMENTED[_o] = _SDR
+for _o in ('get_sel_entry', 'sel_entries', 'get_sel_entries'):
+    DOCUMENTED[_o] = _SEL
+DOCUMENTED['get_and_clear_sel_entry'] = _SEL | {0xC5}
+DOCUMENTED['get_component_properties'] = {0x83}
+
 # documented adaptations whose result legitimately differs from the fault-free one:
 # Get Component Properties answers 0x83 "invalid properties selector" -> that property is left out
 ADAPT = {
@@ -383,8 +406,20 @@ def judge(op, faults, free, bad):
             return 'hpm', None
     if op in PRIMITIVES and bad['kind'] == 'ok' and bad.get('carried') in codes:
         return 'carried', None
+    if op == 'get_and_clear_sel_entry' and bad['kind'] == 'ok':
+        # "atomically gets and clears": the entry handed back was read under the reservation the delete
+        # succeeded with -- after "reservation cancelled" (the log changed) it has to be read again
+        names = [n for (n, _) in bad['trace']]
+        last = dict((n, i) for i, n in enumerate(names))
+        if not (last.get('ReserveSel', -1) < last.get('GetSelEntry', -1) < last.get('DeleteSelEntry', -1)):
+            return 'VIOLATION', 'stale-after-cancel'
     if same_outcome(bad, free):
         if bad['trace'][k + 1:] != free['trace'][k + 1:]:
+            # the run went on after the faults it reached: legitimate only for the codes the documented
+            # retries / adaptations of this operation name
+            reached = [c for (kk, c, _) in faults if kk < len(bad['trace'])]
+            if any(c not in DOCUMENTED.get(op, ()) for c in reached):
+                return 'VIOLATION', 'undocumented-retry'
             return 'recovered', None
         return 'VIOLATION', 'ignored-cc'
     if all((op, c) in ADAPT for c in codes) and bad['kind'] == 'ok' and free['kind'] == 'ok':
@@ -499,6 +534,7 @@ def _run(ctx, sw):
     if int(drv.ask('info')) != len(sw.entries):
         ctx.disagree('table-size', {}, drv.ask('info'), str(len(sw.entries)))
     replay_lines = []       # (line, expected tag+n, case)
+    faulted_traces = []     # (entry index, request-class ids, case) of runs that went on after a fault
     for op in ops:
         shape = _shape_of(sw, op)
         census[shape] = census.get(shape, 0) + 1
@@ -546,6 +582,11 @@ def _run(ctx, sw):
                                              {'op': op, 'recipe': ri, 'faults': [[k, c, False]]}))
                     # directed double faults: wherever the library went on after the first fault
                     if verdict in ('recovered', 'adapted'):
+                        # K: the skeleton (whose every resolution the composition theorems cover) also admits
+                        # the requests of the run that went on after the fault
+                        bids = _trace_ids(sw, bad['trace'])
+                        if has_sk and bids is not None and (ctx.tier == 'thorough' or c in (0xCA, 0xC5, 0x80, 0xC3, 0x83)):
+                            faulted_traces.append((ent['index'], bids, {'op': op, 'recipe': ri, 'faults': [[k, c, False]]}))
                         later = range(k + 1, len(bad['trace']))
                         c2s = sw.codes if ctx.tier == 'thorough' and c in QUICK_CODES else \
                             [c, 0xC5, 0x80, 0xCA, 0xD5, rng.choice(sw.codes)]
@@ -577,6 +618,28 @@ def _run(ctx, sw):
         ctx.count('skeleton-replay:' + ('agree' if got == want else 'differ'))
         if got != want:
             ctx.disagree('skeleton-replay', case, got, want)
+    seen = set()
+    flines, fcases = [], []
+    for (i, ids, case) in faulted_traces:
+        key = (i, tuple(ids))
+        if key not in seen:
+            seen.add(key)
+            flines.append('accept %d %s' % (i, _natlist(ids)))
+            fcases.append(case)
+    # the matcher is exponential on long traces of nested loops (get_fru_inventory): shortest first, on a budget
+    import time as _time
+    order = sorted(range(len(flines)), key=lambda j: len(flines[j]))
+    t0, budget = _time.time(), (8.0 if ctx.tier == 'quick' else 90.0)
+    cap = 16 if ctx.tier == 'quick' else 18
+    for j in order:
+        if _time.time() - t0 > budget or flines[j].count(',') + 1 > cap:
+            ctx.count('skeleton-faulted:skipped-on-time')
+            continue
+        r = drv.ask(flines[j])
+        ctx.count('skeleton-faulted:' + r.split()[0])
+        if not r.startswith('yes'):
+            ctx.disagree('skeleton-trace-faulted', fcases[j], 'skeleton does not admit the trace of the faulted run',
+                         'real operation issued it')
     _variants(ctx, sw, rng)
     _handlers(ctx, sw, drv, rng)
     _op_models(ctx, sw, drv, rng)
@@ -659,6 +722,10 @@ def _handlers(ctx, sw, drv, rng):
     plan = []   # (label, op, recipe index or callable, variant, driver prefix, value?)
     plan.append(('fru-full', 'read_fru_data', 0, 'default', 'fru %s - -' % hexs))
     plan.append(('fru-range', 'read_fru_data', 1, 'default', 'fru %s 3 70' % hexs))
+    for ai in (2, 3):      # chassis and board info area offsets of the image (common header bytes 2, 3)
+        aoff = img[ai] * 8
+        plan.append(('fru-area-%d' % ai, '_read_fru_area',
+                     (lambda o: (lambda ipmi: ipmi._read_fru_area(o)))(aoff), 'default', 'fruarea %s %d' % (hexs, aoff)))
     plan.append(('clear-sel', 'clear_sel', 0, 'default', 'clear 4'))
     plan.append(('clear-sdr', 'clear_sdr_repository', 0, 'default', 'clear 4'))
     for op, (to, iv) in (('initiate_upgrade_action_and_wait', (1, 0.1)), ('finish_upload_and_wait', (1, 0.1)),
@@ -930,6 +997,12 @@ def _report(ctx, sw, baseline_broken):
 def _explain(what):
     if what == 'ignored-cc':
         return 'a non-OK completion code is dropped: the operation completes as if the request had succeeded'
+    if what == 'stale-after-cancel':
+        return 'after "reservation cancelled" the entry read under the lost reservation is returned without being ' \
+               'read again'
+    if what == 'undocumented-retry':
+        return 'a non-OK completion code that no documented retry / adaptation of this operation names is swallowed: ' \
+               'the operation goes on and completes as if nothing had been reported'
     if what == 'result-differs':
         return 'a non-OK completion code changes the returned value instead of raising'
     if what == 'wrong-code':
